@@ -282,7 +282,17 @@ return out
 
 const probeWant = `[i7,s"inner-finally",s"IndexOutOfBoundsError",i42,i17,i144,i0,i6]`
 
-var probeBC *ugo.Bytecode
+// probe2 fails at top level outside of any try statement: Run must return exactly this error
+// (handlers left over from an earlier run must not catch it).
+const probe2Src = `
+acc := 0
+for i := 0; i < 3; i++ { acc += i }
+throw error("probe-error-" + string(acc))
+`
+
+const probe2Want = "probe-error-3"
+
+var probeBC, probe2BC *ugo.Bytecode
 
 func compileProbe() error {
 	mm := ugo.NewModuleMap()
@@ -295,6 +305,15 @@ func compileProbe() error {
 	r := execVM(ugo.NewVM(bc).SetRecover(true), ugo.Map{}, nil, nil)
 	if r.class != "value" || r.val != probeWant {
 		return fmt.Errorf("probe on a fresh VM gives %s, want %s", r, probeWant)
+	}
+	bc2, err := ugo.Compile([]byte(probe2Src), ugo.CompilerOptions{})
+	if err != nil {
+		return err
+	}
+	probe2BC = bc2
+	r = execVM(ugo.NewVM(bc2).SetRecover(true), ugo.Map{}, nil, nil)
+	if r.class != "error" || r.errMsg != probe2Want {
+		return fmt.Errorf("probe 2 on a fresh VM gives %s, want error %s", r, probe2Want)
 	}
 	return nil
 }
@@ -313,6 +332,14 @@ func mkGlobals(spec string, lg *logger) ugo.Object {
 	switch {
 	case spec == "":
 		return m
+	case spec == "nil":
+		return nil
+	case spec == "int":
+		return ugo.Int(3)
+	case spec == "array":
+		return ugo.Array{m}
+	case spec == "syncmap":
+		return &ugo.SyncMap{Value: m}
 	case strings.HasPrefix(spec, "pglobals:"):
 		return &pglobals{m: m, kind: strings.TrimPrefix(spec, "pglobals:")}
 	}
@@ -386,7 +413,24 @@ func judge(c *caseData) verdict {
 		return v
 	}
 
-	// the same VM must still work: fixed probe script
+	// the same VM must still work: first a script that throws at top level (a successful run would
+	// wipe the main frame's state), then the fixed probe script
+	vm.SetBytecode(probe2BC)
+	rp2 := execVM(vm, ugo.Map{}, nil, nil)
+	switch {
+	case rp2.class == "timeout":
+		v.inconcl = "watchdog-probe"
+		return v
+	case rp2.class == "panic":
+		v.sig = "reuse-broken:probe-panics-after-" + r1.class
+		v.what = fmt.Sprintf("after a first run ending in %s, the failing probe script PANICS on the same VM: %s\n%s\n--- Go stack ---\n%s", r1, rp2.pan, describe(c), trimStack(rp2.stack))
+		return v
+	case rp2.class != "error" || rp2.errMsg != probe2Want:
+		v.sig = "reuse-broken:probe2-after-" + r1.class
+		v.what = fmt.Sprintf("after a first run ending in %s, the probe script that throws at top level gives %s on the same VM, want ERROR %q\n%s", r1, rp2, probe2Want, describe(c))
+		return v
+	}
+
 	vm.SetBytecode(probeBC)
 	rp := execVM(vm, ugo.Map{}, nil, nil)
 	switch {
@@ -454,6 +498,13 @@ func classify(rec *ev.Rec, c *caseData, v verdict, extra ...string) {
 	r := v.r1
 	caught, uncaught := raised(r)
 	rec.Class("kind:" + c.Kind)
+	if c.Globals != "" {
+		g := c.Globals
+		if i := strings.Index(g, ":"); i > 0 {
+			g = g[:i]
+		}
+		rec.Class("globals:" + g)
+	}
 	if caught {
 		rec.Class("raised:caught")
 	}
@@ -613,7 +664,16 @@ func genCase(rt *rapid.T, profs []gen.Config) (*caseData, *gen.GenProgram) {
 		c.Args = drawArgs(rt)
 	}
 	c.ArgsSrc = argsString(c.Args)
+	c.Globals = drawGlobals(rt)
 	return c, gp
+}
+
+// drawGlobals: mostly the map with L and H; sometimes nil, a non-indexable value, an array, a sync map.
+func drawGlobals(rt *rapid.T) string {
+	if rapid.IntRange(0, 9).Draw(rt, "oddglobals") != 0 {
+		return ""
+	}
+	return rapid.SampledFrom([]string{"nil", "int", "array", "syncmap", "pglobals:none"}).Draw(rt, "globalskind")
 }
 
 func objToArgD(o ugo.Object) argD {
@@ -660,7 +720,7 @@ func TestCheck(t *testing.T) {
 	}
 
 	profs := profiles()
-	ev.RapidCheck(t, "generated-programs", ev.N(2500, 50000), 1, func(rt *rapid.T) {
+	ev.RapidCheck(t, "generated-programs", ev.N(4000, 50000), 1, func(rt *rapid.T) {
 		c, gp := genCase(rt, profs)
 		rec.Case()
 		v := judge(c)
@@ -686,7 +746,7 @@ func TestCheck(t *testing.T) {
 	})
 	rec.Unfreeze()
 
-	ev.RapidCheck(t, "resource-edge", ev.N(900, 20000), 2, func(rt *rapid.T) {
+	ev.RapidCheck(t, "resource-edge", ev.N(1200, 15000), 2, func(rt *rapid.T) {
 		p := drawEdge(rt)
 		c, err := p.build()
 		if err != nil {
@@ -701,7 +761,7 @@ func TestCheck(t *testing.T) {
 	})
 	rec.Unfreeze()
 
-	ev.RapidCheck(t, "go-callbacks", ev.N(2500, 50000), 3, func(rt *rapid.T) {
+	ev.RapidCheck(t, "go-callbacks", ev.N(4000, 50000), 3, func(rt *rapid.T) {
 		c, classes := drawCallback(rt)
 		rec.Case()
 		v := judge(c)
